@@ -31,7 +31,7 @@ func checkC07(c *Check) {
 	for _, rd := range x.sel("read", nil) {
 		isSync := false
 		for _, w := range writes {
-			if before(w.Call, rd.Call) {
+			if evBeforeE1(w, rd) {
 				isSync = true
 			}
 		}
@@ -49,7 +49,7 @@ func checkC07(c *Check) {
 	for _, rd := range syncReads {
 		var pre []*Form
 		for _, w := range writes {
-			if before(w.Call, rd.Call) {
+			if evBeforeE1(w, rd) {
 				pre = append(pre, w.Guard)
 			}
 		}
@@ -59,7 +59,7 @@ func checkC07(c *Check) {
 	for _, t := range traceme {
 		var pre []*Form
 		for _, rd := range syncReads {
-			if before(rd.Call, t.Call) {
+			if evBeforeE1(rd, t) {
 				pre = append(pre, rd.Guard)
 			}
 		}
@@ -70,7 +70,7 @@ func checkC07(c *Check) {
 	for _, u := range x.sel("unshare", nil) {
 		var pre []*Form
 		for _, rd := range syncReads {
-			if before(rd.Call, u.Call) {
+			if evBeforeE1(rd, u) {
 				pre = append(pre, rd.Guard)
 			}
 		}
@@ -105,7 +105,7 @@ func checkC07(c *Check) {
 		}
 		bad := ""
 		for _, e := range rest {
-			if !before(rd.Call, e.Call) {
+			if !evBeforeE1(rd, e) {
 				if ok, _, _ := Valid(fNot(fAnd(rd.Guard, e.Guard))); !ok {
 					bad = e.Site
 				}
@@ -458,11 +458,13 @@ func checkC07Parent(x *e1ctx) {
 	// ---------- 3: failure ⇒ killed and reaped ----------
 	var reaper *ssa.Function
 	sigkill := p.Sys("SIGKILL")
-	for _, ci := range callInstrs(fn) {
+	seenCallee := map[*ssa.Function]bool{}
+	for _, ci := range callInstrsDeep(fn, 2) {
 		_, callee := calleeOf(ci)
-		if callee == nil || !inModule(callee) {
+		if callee == nil || !inModule(callee) || seenCallee[callee] {
 			continue
 		}
+		seenCallee[callee] = true
 		hasKill, hasWait := false, false
 		for _, c2 := range callInstrs(callee) {
 			n2, _ := calleeOf(c2)
@@ -542,7 +544,22 @@ func checkC07Parent(x *e1ctx) {
 					return false
 				}
 				_, callee := calleeOf(ci)
-				return callee == reaper
+				if callee == reaper {
+					return true
+				}
+				// a helper of the package whose every path calls the reaper
+				if callee != nil && inModule(callee) && callee.Pkg == fn.Pkg && len(callee.Blocks) > 0 {
+					skips, _ := pathQuery{fn: callee, target: isReturn, stop: func(in2 ssa.Instruction) bool {
+						c2, ok := in2.(ssa.CallInstruction)
+						if !ok {
+							return false
+						}
+						_, c3 := calleeOf(c2)
+						return c3 == reaper
+					}}.find()
+					return !skips
+				}
+				return false
 			}}.find()
 		c.Cond(!found, "3/fail-kill-reap", fmt.Sprintf("%s:return#%d", key, nRet), p.Pos(ret.Pos()), "error return is preceded by kill+reap on every path",
 			"an error is returned while the child is neither killed nor reaped; path: "+p.trail(trail))
@@ -648,14 +665,21 @@ func checkSyncRelay(c *Check) {
 	}
 	// the closure that builds a Ucred: Pid field = its parameter
 	var syncClosure *ssa.Function
-	for _, a := range he.AnonFuncs {
+	// a closure of the handler, or a function / method of the package used as the callback
+	cands := append([]*ssa.Function{}, he.AnonFuncs...)
+	for _, f := range p.PkgFuncs("container") {
+		if f.Parent() == nil && f != he {
+			cands = append(cands, f)
+		}
+	}
+	for _, a := range cands {
 		for _, b := range a.Blocks {
 			for _, in := range b.Instrs {
 				if st, ok := in.(*ssa.Store); ok {
 					if fa, ok := st.Addr.(*ssa.FieldAddr); ok && strings.HasSuffix(derefType(fa.X.Type()).String(), "syscall.Ucred") && fieldName(fa.X.Type(), fa.Field) == "Pid" {
 						syncClosure = a
 						isParam := false
-						if pr, ok := stripConv(st.Val).(*ssa.Parameter); ok && len(a.Params) > 0 && pr == a.Params[0] {
+						if pr, ok := stripConv(st.Val).(*ssa.Parameter); ok && len(a.Params) > 0 && (pr == a.Params[0] || (a.Signature.Recv() != nil && len(a.Params) > 1 && pr == a.Params[1])) {
 							isParam = true
 						}
 						c.Cond(isParam, "5/container-relay", "container.handleExecve$sync:cred-pid", p.Pos(st.Pos()), "credential pid is the callback's parameter", "credential pid is "+describe(st.Val)+", not the pid handed to the sync callback")
@@ -668,6 +692,24 @@ func checkSyncRelay(c *Check) {
 		c.Undecided("5/container-relay", "container.handleExecve$sync", p.Pos(he.Pos()), "cannot find the closure that sends the credential with the pid")
 		return
 	}
+	// the callback as a value: the closure itself, or the bound-method wrapper of the method
+	isSyncFn := func(v ssa.Value) bool {
+		f, ok := v.(*ssa.Function)
+		if !ok {
+			return false
+		}
+		if f == syncClosure {
+			return true
+		}
+		if f.Synthetic != "" {
+			for _, c2 := range callInstrs(f) {
+				if _, c3 := calleeOf(c2); c3 == syncClosure {
+					return true
+				}
+			}
+		}
+		return false
+	}
 	// direct invocation when syncing after exec: constant 1 (the container init as seen from the host)
 	nDirect := 0
 	for _, ci := range callInstrs(he) {
@@ -675,7 +717,7 @@ func checkSyncRelay(c *Check) {
 		isSync := callee == syncClosure
 		if !isSync {
 			// call through the closure value
-			if mc, ok := ci.Common().Value.(*ssa.MakeClosure); ok && mc.Fn == ssa.Value(syncClosure) {
+			if mc, ok := ci.Common().Value.(*ssa.MakeClosure); ok && isSyncFn(mc.Fn) {
 				isSync = true
 			}
 		}
@@ -697,7 +739,7 @@ func checkSyncRelay(c *Check) {
 						vals = ph.Edges
 					}
 					for _, v := range vals {
-						if mc, ok := v.(*ssa.MakeClosure); ok && mc.Fn == ssa.Value(syncClosure) {
+						if mc, ok := v.(*ssa.MakeClosure); ok && isSyncFn(mc.Fn) {
 							stored = true
 						}
 					}
@@ -709,7 +751,7 @@ func checkSyncRelay(c *Check) {
 	// host: param.SyncFunc(int(msg.Cred.Pid))
 	if ex := p.Func("container", "container.Execve"); ex != nil {
 		found := false
-		for _, ci := range callInstrs(ex) {
+		for _, ci := range callInstrsDeep(ex, 2) {
 			if n, _ := calleeOf(ci); n == "dynamic" && strings.HasSuffix(describe(ci.Common().Value), ".SyncFunc") {
 				found = true
 				d := describe(ci.Common().Args[0])
